@@ -189,11 +189,18 @@ let () =
                 let e = enum_dy wrows in
                 let bgdy = List.map (fun b -> dy_exn "background" (f32_to_dy b)) bg32 in
                 let tol = tol_bg (nat_of_int m) bgdy in
-                (* input predicates naming the known limits of the code (see known_findings.d/tfm.json) *)
+                (* input predicates naming the known limits of the code (see known_findings.d/tfm.json);
+                   `wildcard-mass` alone (-inf wildcard cells) and `positive-wildcard-cell` are
+                   repaired in /repo (ee61ad3, 877ce09) and only kept as information *)
                 let wild_mass = not (Z.eqb (fst (List.nth bgdy (k - 1))) Z0) in
                 let wild_pos = List.exists (fun row -> match f32_to_dy (List.nth row (k - 1)) with
                     | Some (Zpos _, _) -> true | _ -> false) mat32 in
-                let itag = (if wild_mass then " wildcard-mass" else "")
+                (* words through a finite wildcard cell have a finite score: the algorithm never
+                   counts them (known finding F12, what is left of it) *)
+                let wild_fin = List.exists (fun row -> match f32_to_dy (List.nth row (k - 1)) with
+                    | Some _ -> true | None -> false) mat32 in
+                let itag = (if wild_mass && wild_fin then " wildcard-mass-finite-cell"
+                            else if wild_mass then " wildcard-mass" else "")
                            ^ (if wild_pos then " positive-wildcard-cell" else "") in
                 let oits = List.map parse_iter (split ';' (List.assoc "it" ofields)) in
                 let fin = List.assoc "fin" ofields in
